@@ -13,6 +13,7 @@ for p in $props; do
     out=$(timeout 1500 ./bin/vcheck run --repo $R ${WORKERS:+--workers $WORKERS} --prop $p --tier ${TIER:-quick} --no-evidence 2>&1); rc=$?
     git -C $R checkout -- .
     v=$(echo "$out" | grep -c '^VIOLATION')
-    echo "$m: exit=$rc violations=$v $(echo "$out" | grep '^SUMMARY' | sed 's/.*wall_s=\([0-9.]*\).*/wall=\1s/') $(echo "$out" | grep '^INCONCLUSIVE' | head -1 | cut -c1-160)"
+    by=$(echo "$out" | grep '^VIOLATION' | sed 's#.*replay/[A-Z0-9]*-##; s#\.json##' | sort -u | head -3 | tr '\n' ' ')
+    echo "$m: exit=$rc violations=$v $(echo "$out" | grep '^SUMMARY' | sed 's/.*wall_s=\([0-9.]*\).*/wall=\1s/') by=[$by] $(echo "$out" | grep '^INCONCLUSIVE' | head -1 | cut -c1-160)"
   done
 done
